@@ -34,6 +34,40 @@ use std::sync::atomic::{AtomicI32, AtomicU32, Ordering};
 use sysx::{Call, Decision, Plan};
 
 pub static PARENT: AtomicI32 = AtomicI32::new(0);
+/// Start state of the descriptor table the operation runs from: 0 = as inherited (0,1,2 occupied),
+/// 1 = descriptor 0 closed, 2 = descriptors 0,1,2 closed (the operation is then handed 0/1/2).
+pub static START: AtomicI32 = AtomicI32::new(0);
+static SAVED_STDIO: [AtomicI32; 3] = [AtomicI32::new(-1), AtomicI32::new(-1), AtomicI32::new(-1)];
+const START_NAMES: [&str; 3] = ["default", "fd0-closed", "fd012-closed"];
+
+fn start_name() -> &'static str {
+    START_NAMES[START.load(Ordering::Relaxed) as usize]
+}
+fn start_closed() -> &'static [i32] {
+    match START.load(Ordering::Relaxed) {
+        1 => &[0],
+        2 => &[0, 1, 2],
+        _ => &[],
+    }
+}
+/// Right before the operation: free the low descriptor numbers of this start state.
+fn apply_start() {
+    for fd in start_closed() {
+        unsafe {
+            libc::close(*fd);
+        }
+    }
+}
+/// After the case was analysed and repaired: occupy 0..2 again with the harness's saved stdio, so that
+/// the harness's own setup/cleanup between cases never receives a low number.
+fn restore_start() {
+    for fd in start_closed() {
+        unsafe {
+            libc::dup2(SAVED_STDIO[*fd as usize].load(Ordering::Relaxed), *fd);
+        }
+    }
+}
+
 /// scenarios with at most this many parent-side calls get pairs of deviations
 const PAIR_BOUND: usize = 16;
 
@@ -637,6 +671,7 @@ fn case_json(name: &str, faults: &[Fault], drop_close: Option<i32>) -> Value {
         "answer": faults.iter().map(|f| f.ans.encode()).collect::<Vec<_>>(),
         "child": faults.iter().map(|f| f.child).collect::<Vec<_>>(),
         "drop_close_errno": drop_close,
+        "start": start_name(),
     })
 }
 
@@ -673,6 +708,7 @@ fn run_case(s: &mut Scn, env: &mut Env, faults: &[Fault], drop_close: Option<i32
     }
     let parent = PARENT.load(Ordering::Relaxed);
     let given = env.given.clone();
+    apply_start();
     let before = fd_map();
     let mut plan = FdPlan { parent, faults: faults.to_vec(), hit: vec![false; faults.len()], close_err: None, pairs: HashMap::new(), sock: HashSet::new(), shared: cx.shared };
     // ---- phase A: the operation
@@ -694,6 +730,10 @@ fn run_case(s: &mut Scn, env: &mut Env, faults: &[Fault], drop_close: Option<i32
     for (i, c) in log_a.iter().enumerate() {
         sh.apply(i, c, &pairs_a, "operation");
     }
+    let low_fd_handed_out = log_a.iter().enumerate().any(|(i, c)| {
+        let Some(real) = c.real else { return false };
+        (creator(c.nr) && (0..=2).contains(&real)) || (real == 0 && pairs_a.get(&i).map(|p| p[0] <= 2 || p[1] <= 2).unwrap_or(false))
+    });
     let (ret, panic_msg) = match res {
         Ok(ret) => (ret, None),
         Err(p) => (Ret { res: Res::Err(format!("panic: {p}")), owned: vec![], held: None }, Some(p)),
@@ -928,6 +968,7 @@ fn run_case(s: &mut Scn, env: &mut Env, faults: &[Fault], drop_close: Option<i32
         libc::alarm(0);
     }
     clear_case();
+    restore_start();
     if let Some(c) = s.cleanup.as_mut() {
         c(env);
     }
@@ -943,9 +984,14 @@ fn run_case(s: &mut Scn, env: &mut Env, faults: &[Fault], drop_close: Option<i32
         (_, false, false) => "fault-not-reached",
     }
     .to_string();
-    r.outcome(&out.class);
+    let sfx = if START.load(Ordering::Relaxed) == 0 { String::new() } else { format!("@{}", start_name()) };
+    r.outcome(&format!("{}{sfx}", out.class));
     if !leaked_fds.is_empty() {
-        r.outcome("leak-observed");
+        r.outcome(&format!("leak-observed{sfx}"));
+    }
+    if !sfx.is_empty() && low_fd_handed_out {
+        // the operation really was handed one of the freed numbers 0..2
+        r.outcome(&format!("op-got-low-fd{sfx}"));
     }
     if cx.verbose {
         println!("case {cj}");
@@ -994,16 +1040,32 @@ extern "C" fn on_alarm(_: libc::c_int) {
     unsafe { libc::abort() }
 }
 
-fn shard_setup() {
+fn shard_setup(start: i32) {
     PARENT.store(unsafe { libc::getpid() }, Ordering::SeqCst);
+    START.store(start, Ordering::SeqCst);
     unsafe {
         libc::signal(libc::SIGALRM, on_alarm as *const () as usize);
         libc::signal(libc::SIGPIPE, libc::SIG_IGN);
+        if start != 0 {
+            // the shard's own stdio moves above 100; 0..2 stay occupied (placeholders) except while an operation runs
+            for fd in 0..3 {
+                if libc::fcntl(fd, libc::F_GETFD) < 0 {
+                    let n = libc::open(c"/dev/null".as_ptr(), libc::O_RDWR);
+                    if n != fd {
+                        libc::dup2(n, fd);
+                        libc::close(n);
+                    }
+                }
+                let saved = libc::fcntl(fd, libc::F_DUPFD_CLOEXEC, 100);
+                assert!(saved >= 100, "saving stdio above 100");
+                SAVED_STDIO[fd as usize].store(saved, Ordering::SeqCst);
+            }
+        }
     }
 }
 
-fn run_scenario(mut s: Scn, thorough: bool) -> Report {
-    shard_setup();
+fn run_scenario(mut s: Scn, thorough: bool, start: i32) -> Report {
+    shard_setup(start);
     let mut r = Report::new();
     let mut env = Env::new(&s.name);
     if let Some(i) = s.init.as_mut() {
@@ -1017,19 +1079,22 @@ fn run_scenario(mut s: Scn, thorough: bool) -> Report {
     let base_totals = base.totals.clone();
     let cx = Ctx { shared, base_leaks: Some(&base_leaks), base_totals: Some(&base_totals), single_leaks: None, single_leaks_by_name: None, verbose: false };
     let n = base.parent_calls.len();
+    if start == 0 {
+        r.sample(json!({"scenario": name, "fault_free_calls": base.parent_calls.iter().map(|c| sysx::name(c.nr)).collect::<Vec<_>>(),
+            "child_calls": base.child_calls.iter().map(|c| sysx::name(c.1)).collect::<Vec<_>>(), "class": base.class}));
+    }
     r.bound(&format!("calls[{name}]"), json!({"parent": n, "child": base.child_calls.iter().filter(|c| c.1 != libc::SYS_fork).count()}));
     for nr in base.parent_calls.iter().map(|c| &c.nr).chain(base.child_calls.iter().map(|c| &c.1)) {
         if menu(*nr).0.is_empty() && !matches!(*nr, libc::SYS_exit | libc::SYS_exit_group | libc::SYS_munmap | libc::SYS_uname | libc::SYS_fork) {
             r.note(format!("{name}: no errno menu for {} — call not failed", sysx::name(*nr)));
         }
     }
-    r.sample(json!({"scenario": name, "fault_free_calls": base.parent_calls.iter().map(|c| sysx::name(c.nr)).collect::<Vec<_>>(),
-        "child_calls": base.child_calls.iter().map(|c| sysx::name(c.1)).collect::<Vec<_>>(), "class": base.class}));
     // drop with every close reporting an error after really closing
     run_case(&mut s, &mut env, &[], Some(libc::EIO), &mut r, &cx);
     let mut seen: HashSet<Vec<Fault>> = HashSet::new();
     let singles = points(&base);
-    let do_pairs = n <= PAIR_BOUND;
+    // other start states: fault-free + every single deviation in the quick tier, everything in the thorough tier
+    let do_pairs = n <= PAIR_BOUND && (start == 0 || thorough);
     let mut single_out: Vec<(Fault, CaseOut)> = Vec::new();
     let mut single_leaks: HashMap<Fault, BTreeSet<String>> = HashMap::new();
     let mut single_by_name: HashMap<(String, Ans), BTreeSet<String>> = HashMap::new();
@@ -1084,9 +1149,14 @@ fn c12(args: &Args) -> Report {
     let thorough = args.thorough;
     let mut items = Vec::new();
     let names: Vec<String> = scenarios::all().iter().map(|s| s.name.clone()).collect();
-    for s in scenarios::all() {
-        let nm = s.name.clone();
-        items.push(isolated(nm, move || run_scenario(s, thorough)));
+    for start in 0..3i32 {
+        for s in scenarios::all() {
+            if start != 0 && s.fixed_stdio {
+                continue; // the scenario is about the process's own stdin
+            }
+            let nm = if start == 0 { s.name.clone() } else { format!("{}@{}", s.name, START_NAMES[start as usize]) };
+            items.push(isolated(nm, move || run_scenario(s, thorough, start)));
+        }
     }
     let mut r = run_isolated(items, &args.out, "C12");
     r.rule = format!(
@@ -1095,10 +1165,14 @@ fn c12(args: &Args) -> Report {
          non-error answers that steer a branch — ppoll/epoll_pwait = 0 when a timeout was passed, connect = EINPROGRESS/EAGAIN, accept4 = EAGAIN, socket read/write = EAGAIN, read/getdents64/copy_file_range = 0, short counts; \
          out-parameter values — ioctl(TIOCGPTN) index 0/255/256/1000/u32::MAX, stat size 0/2^40/-1 and mode file/dir, wait4 status 0/256/9, getdents64 d_type=DT_UNKNOWN, io_uring_setup without FEAT_SINGLE_MMAP, spawn's 8-byte sync-pipe message); \
          pairs of deviations for scenarios with <= 16 parent calls, the second one enumerated on the log of the run containing the first (quick: pairs whose first member is a non-error answer incl. EAGAIN/EINPROGRESS/EINTR; thorough: all pairs). \
-         close is executed and then reports the error. Each (scenario, deviation set) is generated once. Oracle: shadow descriptor table from the call log, cross-checked with /proc/self/fd before / after the operation / after dropping the returned value.",
+         close is executed and then reports the error. START STATES: the whole catalogue is run from three descriptor tables — as inherited (0,1,2 occupied), descriptor 0 closed, descriptors 0,1,2 closed \
+         (the shard's own stdio is parked above 100 and the low numbers are freed only while the operation and the drop of its result run, so the operation is handed 0/1/2); \
+         for the two extra start states the quick tier runs the fault-free case, the close-reports-EIO drop and every single deviation, the thorough tier also the pairs. \
+         Each (scenario, start state, deviation set) is generated once. Oracle: shadow descriptor table from the call log, cross-checked with /proc/self/fd before / after the operation / after dropping the returned value.",
         names.len()
     );
     r.bound("scenarios", names.len());
+    r.bound("start_states", json!(START_NAMES));
     r.bound("pairs_for_calls_le", PAIR_BOUND);
     r.bound("tier", if thorough { "thorough" } else { "quick" });
     r
@@ -1124,7 +1198,8 @@ fn replay(v: &Value) -> Report {
         })
         .collect();
     let drop_close = v["drop_close_errno"].as_i64().map(|x| x as i32);
-    shard_setup();
+    let start = v["start"].as_str().and_then(|n| START_NAMES.iter().position(|x| *x == n)).unwrap_or(0) as i32;
+    shard_setup(start);
     let mut env = Env::new(&s.name);
     if let Some(i) = s.init.as_mut() {
         i(&mut env);
